@@ -242,6 +242,10 @@ def targetOK (c : Case) (st? : Option FState) (obs : List Ev) (err : String) (ex
 
 def boolJ (b : Bool) : Json := Json.bool b
 
+/-- length of the shortest prefix (oldest first) on which the monitor `f` (newest first) is false; 0 = never -/
+def firstBad (f : List Ev → Bool) (obs : List Ev) : Nat :=
+  ((List.range (obs.length + 1)).find? fun k => !f (obs.take k).reverse).getD 0
+
 def handle (j : Json) : Json :=
   let c := parseCase j
   let par := !c.serial
@@ -292,6 +296,9 @@ def handle (j : Json) : Json :=
       ("prop", Json.mkObj [("once", boolJ (onceOK rev)), ("after", boolJ (afterOK (trigOf inp) rev)),
                            ("obey", boolJ (obeyOK deps inp.noAct rev)), ("utd", boolJ (utdOK inp.utd rev)),
                            ("target", boolJ tgt.1), ("target_why", Json.str tgt.2)]),
+      ("bad_at", Json.mkObj [("once", toJson (firstBad onceOK obsAll)), ("after", toJson (firstBad (afterOK (trigOf inp)) obsAll)),
+                             ("obey", toJson (firstBad (obeyOK deps inp.noAct) obsAll)),
+                             ("utd", toJson (firstBad (utdOK inp.utd) obsAll))]),
       ("model_prop", Json.mkObj [("once", boolJ (onceOK sim.events)), ("after", boolJ (afterOK (trigOf inp) sim.events))])]
 
 end Driver.Delayed
